@@ -1176,7 +1176,7 @@ flatcc_builder_vt_ref_t flatcc_builder_create_cached_vtable(flatcc_builder_t *B,
 {
     vtable_descriptor_t *vd, *vd2;
     uoffset_t *pvd, *pvd_head;
-    uoffset_t next;
+    uoffset_t next, next2 = 0;
     voffset_t *vt_;
 
     /* This just gets the hash table slot, we still have to inspect it. */
@@ -1199,6 +1199,7 @@ flatcc_builder_vt_ref_t flatcc_builder_create_cached_vtable(flatcc_builder_t *B,
         if (vd->nest_id != B->nest_id) {
             /* but we don't have to resubmit to cache. */
             vd2 = vd;
+            next2 = next;
             /* See if there is a better match. */
             pvd = &vd->next;
             next = vd->next;
@@ -1230,7 +1231,8 @@ flatcc_builder_vt_ref_t flatcc_builder_create_cached_vtable(flatcc_builder_t *B,
         return 0;
     }
     if (vd2) {
-        /* Reuse cached copy. */
+        /* Reuse cached copy. The descriptor buffer may have moved since vd2 was found. */
+        vd2 = vd_ptr(next2);
         vd->vb_start = vd2->vb_start;
     } else {
         if (B->vb_flush_limit && B->vb_flush_limit < B->vb_end + vt_size) {
